@@ -135,6 +135,8 @@ func (l *lexer) nextToken() token {
 
 // tokenize kicks things off.
 func (l *lexer) tokenize() {
+	verifEvent("lex.start", l, "")
+	defer verifEvent("lex.exit", l, "")
 	for l.state = lexData; l.state != nil; {
 		l.state = l.state(l)
 	}
@@ -189,6 +191,7 @@ func (l *lexer) emit(t tokenType) {
 	}
 
 	l.tokens <- tok
+	verifEvent("lex.sent", l, tok.tokenType.String())
 	l.start = l.pos
 	if tok.tokenType == tokenEOF {
 		close(l.tokens)
@@ -199,6 +202,7 @@ func (l *lexer) emit(t tokenType) {
 func (l *lexer) errorf(format string, args ...interface{}) stateFn {
 	tok := token{fmt.Sprintf(format, args...), tokenError, Pos{l.line, l.offset}}
 	l.tokens <- tok
+	verifEvent("lex.sent", l, tok.tokenType.String())
 
 	return nil
 }
